@@ -140,6 +140,31 @@ pub fn eval_parsers_inner(c: &ParserCase) -> Outcome {
             }
         }
     });
+    call!("api::display_with_format_specs", {
+        // Display / Debug of the codec enums under every kind of format specification (width below, at and above the name's
+        // length; fill and alignment; precision; sign-aware zero padding; alternate form)
+        use muxide::api::AacProfile;
+        let profiles = [AacProfile::Lc, AacProfile::Main, AacProfile::Ssr, AacProfile::Ltp, AacProfile::He, AacProfile::Hev2];
+        let w = (c.num % 14) as usize;
+        let pr = (c.from % 9) as usize;
+        let mut all: Vec<String> = Vec::new();
+        let mut show = |x: &dyn std::fmt::Display, dbg: &dyn std::fmt::Debug| {
+            for w in [0usize, 1, 2, 3, 4, 5, 6, 7, 8, 9, 12, w] {
+                all.push(format!("{:w$}|{:<w$}|{:>w$}|{:^w$}|{:*<w$}|{:#>w$.pr$}|{:0w$}|{:.pr$}|{:w$?}|{:#?}", x, x, x, x, x, x, x, x, dbg, dbg, w = w, pr = pr));
+            }
+        };
+        for v in [VideoCodec::H264, VideoCodec::H265, VideoCodec::Av1, VideoCodec::Vp9] {
+            show(&v, &v);
+        }
+        for p in profiles {
+            show(&p, &p);
+            let a = AudioCodec::Aac(p);
+            show(&a, &a);
+        }
+        for a in [AudioCodec::Opus, AudioCodec::None] {
+            show(&a, &a);
+        }
+    });
     call!("opus::opus_frame_count", codec::opus::opus_frame_count(d));
     call!("opus::opus_packet_samples", codec::opus::opus_packet_samples(d));
     call!("opus::is_valid_opus_packet", reached |= codec::opus::is_valid_opus_packet(d));
